@@ -981,7 +981,11 @@ func checkIPv6(data string) bool {
 	}
 	fragments := std.StringSplit(data, ":")
 	l = len(fragments)
-	if l < 3 || 8 < l {
+	if l < 3 || 9 < l {
+		return false
+	}
+	// seven groups and a leading or trailing "::" (standing for one group) split into nine fragments
+	if l == 9 && !(len(fragments[0]) == 0 && len(fragments[1]) == 0) && !(len(fragments[7]) == 0 && len(fragments[8]) == 0) {
 		return false
 	}
 	var hasEmpty bool
